@@ -856,16 +856,18 @@ def _return_temps(fn):
         return sum(1 for n in _walk_scope(fn) if isinstance(n, ast.Name) and n.id == name and
                    isinstance(n.ctx, (ast.Store, ast.Del)))
 
-    def sink(stmts, name):
-        """replace the trailing `name = V` of every path through stmts by `return V`; None if impossible"""
+    def sink(stmts, name, wrap=None):
+        """replace the trailing `name = V` of every path through stmts by `return V` (`return wrap[V]`);
+        None if impossible"""
         if not stmts:
             return None
         last = stmts[-1]
         if isinstance(last, ast.Assign) and len(last.targets) == 1 and isinstance(last.targets[0], ast.Name) and \
                 last.targets[0].id == name:
-            return stmts[:-1] + [ast.copy_location(ast.Return(value=last.value), last)]
+            val = last.value if wrap is None else _Subst({name: last.value}).visit(copy.deepcopy(wrap))
+            return stmts[:-1] + [ast.copy_location(ast.Return(value=val), last)]
         if isinstance(last, ast.If) and last.orelse:
-            a, b = sink(last.body, name), sink(last.orelse, name)
+            a, b = sink(last.body, name, wrap), sink(last.orelse, name, wrap)
             if a is None or b is None:
                 return None
             return stmts[:-1] + [ast.copy_location(ast.If(test=last.test, body=a, orelse=b), last)]
@@ -900,6 +902,22 @@ def _return_temps(fn):
                         del stmts[i]
                         changed[0] = True
                         continue
+                # N16b  if c: t = A  elif d: t = B  else: raise ..;  return t + k   ->  return A + k / return B + k
+                if isinstance(s1, ast.If) and not isinstance(s2.value, ast.Name):
+                    ts = [n.id for n in ast.walk(s2.value) if isinstance(n, ast.Name)]
+                    stored_in_s1 = {n.id for n in ast.walk(s1) if isinstance(n, ast.Name) and isinstance(n.ctx, ast.Store)}
+                    cand = [t for t in set(ts) if t in stored_in_s1]
+                    if len(cand) == 1 and ts.count(cand[0]) == 1 and loads(cand[0]) == 1 and cand[0] not in _params(fn) \
+                            and not any(isinstance(x, (ast.Lambda, ast.ListComp, ast.GeneratorExp, ast.SetComp,
+                                                       ast.DictComp, ast.Call)) for x in ast.walk(s2.value)):
+                        t = cand[0]
+                        new_if = sink([s1], t, s2.value)
+                        n_store = sum(1 for n in ast.walk(s1) if isinstance(n, ast.Name) and n.id == t and
+                                      isinstance(n.ctx, ast.Store))
+                        if new_if is not None and stores(t) == n_store:
+                            stmts[i:i + 2] = new_if
+                            changed[0] = True
+                            continue
                 # N16
                 if isinstance(s2.value, ast.Name) and isinstance(s1, ast.If):
                     t = s2.value.id
